@@ -415,4 +415,23 @@ def hostStartB (b : Rec) (input : Bytes) : Bool × Bytes :=
 /-- `parse_url_impl<ada::url, true>(input, &base)` for a valid base object -/
 def parseWithBase (idna : Spec.Idna) (b : Rec) (input : Bytes) : Out := machineB idna b input
 
+/-! ### the configured maximum length (`ada::get_max_input_length()` = `L`) and `url::set_href` -/
+
+/-- "We refuse to parse URL strings that exceed the maximum input length" at entry, `enforce_max_length()` at every exit that
+    hands out a valid URL (the exits are listed and checked in C09) -/
+def limited (L : Nat) (input : Bytes) (o : Out) : Out :=
+  if input.length > L then .invalid
+  else match o with
+    | .ok r => if getHrefSize r > L then .invalid else .ok r
+    | .invalid => .invalid
+
+def parseNoBaseL (idna : Spec.Idna) (L : Nat) (input : Bytes) : Out := limited L input (parseNoBase idna input)
+def parseWithBaseL (idna : Spec.Idna) (L : Nat) (b : Rec) (input : Bytes) : Out := limited L input (parseWithBase idna b input)
+
+/-- `url::set_href`: parse, and take the result over when there is one -/
+def setHrefR (idna : Spec.Idna) (L : Nat) (r : Rec) (v : Bytes) : Rec × Bool :=
+  match parseNoBaseL idna L v with
+  | .ok r' => if getHrefSize r' > L then (r, false) else (r', true)
+  | .invalid => (r, false)
+
 end AdaVerif.Model.ParseSpecial
